@@ -54,7 +54,7 @@ REQUIRED = ["op:invariant", "op:components", "op:membership", "op:region-locatio
             "shape:area-is-whole-record", "shape:component-longer-than-half", "shape:origin-crossing-area",
             "shape:several-stretches-on-pre-origin-side",
             "hist:clear-then-create", "hist:implicit-recreate", "hist:area-added-after-regions",
-            "hist:cds-added-after-regions", "hist-op:add_protocluster", "hist-op:add_subregion",
+            "hist:cds-added-after-regions", "hist:create-regions-from-handed-areas", "hist-op:add_protocluster", "hist-op:add_subregion",
             "hist-op:add_cds_feature", "hist-op:create_candidate_clusters", "hist-op:create_regions",
             "hist-op:clear_regions", "hist-op:clear_candidate_clusters", "hist-op:clear_protoclusters",
             "hist-op:clear_subregions", "hist-op:strip_antismash_annotations",
@@ -369,11 +369,12 @@ def count_shapes(ctx, ivs, comps, length, circular) -> bool:
     return any_overlap
 
 
-def check_regions(sess: Session, record, returned=None) -> bool:
-    """ the regions were just (re)created from the record's areas: compare with the components """
+def check_regions(sess: Session, record, returned=None, handed=None) -> bool:
+    """ the regions were just (re)created from the record's areas (or from the areas handed to create_regions):
+        compare with the components """
     ctx = sess.ctx
     length, circular = sess.length, sess.circular
-    areas = current_areas(record)
+    areas = current_areas(record) if handed is None else list(handed)
     regions = list(record.get_regions())
     ivs = [M.intervals_of(a.location) for a in areas]
     for area, iv in zip(areas, ivs):
@@ -510,6 +511,26 @@ def run_history(ctx, case) -> None:
                 continue
             sess.current_op = name
             try:
+                if name == "create_regions" and (len(sess.done) + world["L"]) % 3 == 0 and current_areas(record):
+                    # create_regions also takes the areas to use: every third creation first asks for the regions
+                    # of one kind of area only (the other kind given as an explicit empty list), or of every other area
+                    cands, subs = list(record.get_candidate_clusters()), list(record.get_subregions())
+                    mode = ("candidates-only", "subregions-only", "every-other-area")[(len(sess.done) // 3) % 3]
+                    if mode == "candidates-only":
+                        subs = []
+                    elif mode == "subregions-only":
+                        cands = []
+                    else:
+                        cands, subs = cands[::2], subs[1::2]
+                    partial = record.create_regions(candidate_clusters=cands, subregions=subs)
+                    ctx.count("hist:create-regions-from-handed-areas")
+                    ctx.count("handed:" + mode)
+                    if not cands + subs:
+                        if partial != 0 or record.get_regions():
+                            ctx.violate("no-areas-handed-no-regions", sess.facts(op=name, mode=mode), case)
+                    elif check_regions(sess, record, returned=partial, handed=cands + subs):
+                        nontrivial = True
+                    record.clear_regions()
                 result = getattr(record, name)(obj) if obj is not None else getattr(record, name)()
             except Exception as err:  # pylint: disable=broad-except
                 recreating = name == "create_regions" or (name in G.OPS_CLEAR and name != "clear_regions" and had_regions)
